@@ -258,6 +258,59 @@ PROPS = {
         "deaths_are_violations": True,
         "assumptions": COMMON_ASSUME,
     },
+    "C19": {
+        "level": "exploration",
+        "rule": "cases = seeded programs with 1-2 traits (some with a parameter, some #[marker]) and 2-5 impls each: identical impls, blanket impls, chains and diamonds obtained by instantiating "
+                "an earlier header, where-clause guards, negative impls; coherence() under both solvers must not panic; when it accepts, for every pair of impls of a non-marker trait the sets "
+                "of ground trait references (types of size <= 3) to which they apply (header match + where-clauses true in the model) are compared: a common reference requires different "
+                "priorities, a strict subset requires the higher priority, a partial overlap is refuted. Non-trivial = an accepted program / an accepted overlapping pair with consistent priorities.",
+        "min_evals": 600, "min_nontrivial": 150,
+        "require_observed": ["accepted", "rejected:overlapping-impls", "pair:overlapping-with-consistent-priorities", "pair:disjoint-on-universe"],
+        "assumptions": COMMON_ASSUME,
+    },
+    "C20": {
+        "level": "exploration",
+        "rule": "cases = 6 single-impl programs each: a local or #[upstream] trait with 0-2 parameters and an impl whose 1-3 type arguments are drawn (depth <= 2) from local structs, upstream "
+                "structs, upstream/local #[fundamental] structs, scalars, str, tuples and impl parameters; orphan_check() under both solvers is compared with the rule of the statement evaluated "
+                "on the AST (trait local, or some argument local looking through fundamental constructors with every earlier argument free of impl parameters). "
+                "Non-trivial = a verdict comparison; distinct = (trait, impl, solver). The histogram lists the position of the first local argument.",
+        "min_evals": 3000, "min_nontrivial": 1500,
+        "require_observed": ["agrees:allowed:local-trait", "agrees:allowed:upstream-trait:first-local-arg=Some(0)", "agrees:allowed:upstream-trait:first-local-arg=Some(1)", "agrees:rejected:upstream-trait:first-local-arg=None", "agrees:rejected:upstream-trait:first-local-arg=Some(1)"],
+        "assumptions": COMMON_ASSUME,
+    },
+    "C21": {
+        "level": "exploration",
+        "rule": "cases = seeded programs with supertrait hierarchies (Self bounds, bounds on the trait's parameter, occasional cycles), generic structs with where-clauses and fields mentioning other "
+                "structs, concrete and blanket impls with sound or missing bounds; for every program accepted by checked_program() (both solvers) the model enumerates ground types of size <= 3: "
+                "every WF type (struct where-clauses hold recursively) that implements a trait must satisfy the trait's where-clauses; every field type of a WF struct instance must be WF; "
+                "goals forall<T>{ if (T: Tr) { T: Super } } proven Unique must be true at every such instance. Non-trivial = an accepted program with ground consequences checked.",
+        "min_evals": 1000, "min_nontrivial": 100,
+        "require_observed": ["accepted", "rejected:wf", "ground-consequences-checked", "implied-bound-goal-true-at-all-wf-instances"],
+        "assumptions": COMMON_ASSUME,
+    },
+    "C29": {
+        "level": "exploration",
+        "rule": "cases = 6 goals each: forall<'p0,'p1,'p2>{ exists<'x0,'x1>{ Subtype(A, B) } } where A is a type of depth <= 3 over &, &mut, fn pointers, tuples and eight ADTs with declared "
+                "variances over lifetime and type parameters, and B is A with fresh lifetimes (and, rarely, a structural change); oracle = structural walk with variance composition giving "
+                "the required outlives set (after applying the answer's substitution for the unknown lifetimes; reflexive pairs dropped); refuted when Subtype is Unique on differing "
+                "structures, not Unique on agreeing ones, or returns a different constraint set. Non-trivial = a judged answer; distinct = (goal, solver).",
+        "min_evals": 4000, "min_nontrivial": 2500,
+        "require_observed": ["requirements-match:some", "requirements-match:none", "structures-differ:not-unique"],
+        "assumptions": COMMON_ASSUME,
+    },
+    "C27": {
+        "level": "fault_enumeration", "runner": "run_c27", "engine": "memsafe", "exhaustive": True,
+        "rule": "fault enumeration over the in-place fold helpers (hook H1 and the public Vec/Box TypeFoldable route): every vector length 0..=10, every failing position (none / each index), "
+                "both failure modes (Err return, panic), spare capacity 0 and 3, five element-type pairs (same layout, different alignment, different size, identical type, zero-sized) "
+                "and boxes x {ok, Err, panic}. Monitors: drop accounting through a side table of counters (on failure every id dropped exactly once, on success none before the result is "
+                "dropped), heap balance through a counting global allocator (catches a leaked block whose value was dropped), Miri (UB, leaks, double free, uninitialised reads; quick: "
+                "lengths 0..=4, thorough: 0..=10), and in the thorough tier valgrind memcheck and an AddressSanitizer/LeakSanitizer build. "
+                "evaluations = cells executed summed over tools; distinct non-trivial = distinct cells of the native matrix in which a failure was injected and fully accounted for.",
+        "min_evals": 1500, "min_nontrivial": 900,
+        "require_observed": ["cells:native-matrix", "cells:native-public-route", "cells:miri-shard-0", "failures-injected:native-matrix"],
+        "technique": "fault enumeration under drop accounting + heap-balance monitor + Miri (+ valgrind memcheck and AddressSanitizer in the thorough tier)",
+        "assumptions": COMMON_ASSUME + ["Miri / ASan / valgrind see only the paths the matrix and the public fold route drive"],
+    },
 }
 
 HOOK_COMMITS = ["d77ca2a", "4f79b4b", "3978b55", "ebc00bf"]
